@@ -622,6 +622,14 @@ def _restart_run(prop, plan, res, kill_at):
         finally:
             node.kill()
         obs.observe("restart+end", None, t2, "restart_closed")
+        if prop == "C02" and tmp1 and cfg.file_T(c2.start) == tmp1[-1][2] and not ops2[0].get("collide"):
+            # the restarted recorder's first write went for the very period whose tmp. file the dead process left
+            # behind (refused or not): after its *clean* close no tmp. file may remain in the channel
+            _, tmp2, _ = RC.final_files(chdir)
+            res.probe("restart_reached_stale_tmp_period")
+            if tmp2:
+                res.violate(prop, "tmp_after_close", "after the clean close of the restarted recorder tmp files remain: %s" % (
+                    ["%s/%s" % (a, b) for a, b, _ in tmp2][:3],), restart=True)
         res.fault("real_sigkill_then_restart")
     finally:
         if not os.environ.get("VSIM_KEEP"):
